@@ -4,7 +4,7 @@ import OxiddModel.AigerParse.Model
 /-!
 Line protocol `aigparse` (see `harness/src/bin/c18_aigparse.rs`):
 
-`p <check_acyclic: 0|1> <input bytes as hex | ->` ↦
+`p <check_acyclic: 0|1> <input bytes as hex | ->` (`q …`: the same without the resource rule) ↦
 `OK <canonical problem>` | `ERR <class>` | `PANIC <kind>` | `SKIP`.
 
 `SKIP`: the input contains a decimal number in `10000 ..= usize::MAX/16`, i.e. a number the parser
@@ -111,19 +111,26 @@ def showRes : Res Problem' → String
   | .error (.fail _) => "ERR"
   | .error (.panic k) => "PANIC " ++ showPanic k
 
-def stepLine (skip : Bool) (line : String) : String :=
+def stepLine (cfg : Cfg) (skip : Bool) (line : String) : String :=
   match words line with
-  | ["p", acyc, h] =>
+  | [op, acyc, h] =>
+    if op ≠ "p" ∧ op ≠ "q" then "bad-op" else
+    -- `q`: without the resource rule (regression lines)
+    let skip := skip && op = "p"
     let bytes? := if h = "-" then some [] else unhex h.toList
     match bytes?, (if acyc = "0" then some false else if acyc = "1" then some true else none) with
     | some bytes, some a =>
-      if skip && tooBig (bytes.length + 1) bytes then "SKIP" else showRes (parse a bytes)
+      if skip && tooBig (bytes.length + 1) bytes then "SKIP" else showRes (parseCfg cfg a bytes)
     | _, _ => "bad-op"
   | _ => "bad-op"
 
-def proto : Proto := { σ := Unit, init := (), step := fun s l => (s, stepLine true l) }
+def proto : Proto := { σ := Unit, init := (), step := fun s l => (s, stepLine Cfg.fixed true l) }
+
+/-- the parser before commit a6ab3b1 of `/repo` (justice sum with overflow checks) -/
+def protoBeforeFix : Proto :=
+  { σ := Unit, init := (), step := fun s l => (s, stepLine Cfg.beforeFix true l) }
 
 /-- without the resource rule (for `run --no-skip 1`, used to confirm findings by hand) -/
-def protoNoSkip : Proto := { σ := Unit, init := (), step := fun s l => (s, stepLine false l) }
+def protoNoSkip : Proto := { σ := Unit, init := (), step := fun s l => (s, stepLine Cfg.fixed false l) }
 
 end OxiddModel.AigerParse
